@@ -21,8 +21,8 @@ from collections import Counter
 sys.path.insert(0, os.path.dirname(os.path.abspath(__file__)))
 import common  # noqa: E402
 
-DEFAULT_BIN = os.path.join(common.BUILD, "argv-tuc", "debug", "tuc")
-DEFAULT_HARNESS = os.path.join(common.BUILD, "argv-harness")
+DEFAULT_BIN = os.path.join(common.BUILD, "tuc", "debug", "tuc")          # built by bin/setup
+DEFAULT_HARNESS = common.HARNESS_BIN
 
 BOUNDS = ["1", "2", "3", "1:2", "2:", ":2", "-1", "1,2", "2,1", "1:", "2:3", "-2:-1", "1,3", "1:1",
           "{1}-{2}", "{2}{1}", "a{1}b", "{1", "1}", "0", "", " ", "a", "3=x", "1,9=fb", "2:1", "1:-1",
